@@ -243,8 +243,9 @@ def run(ctx):
                             if isinstance(c, ast.Call) and (call_name(c) or "").split(".")[-1] in ("Optional", "Required") and c.args and isinstance(c.args[0], ast.Constant):
                                 accepted.add(c.args[0].value)
     wu = program.func("decorator.py::DecoratorRegistry.wait_until")
-    for n in body_walk(wu):
-        if isinstance(n, ast.Call) and call_name(n) == "found_args.add" and n.args and isinstance(n.args[0], ast.Constant):
+    wu_nodes = program.walk_with_helpers("decorator.py::DecoratorRegistry.wait_until")  # wait_until and the helpers of the registry it calls
+    for n in wu_nodes:
+        if isinstance(n, ast.Call) and (call_name(n) or "").endswith(".add") and n.args and isinstance(n.args[0], ast.Constant) and isinstance(n.args[0].value, str):
             accepted.add(n.args[0].value)
         if isinstance(n, ast.Dict) and n.keys and all(isinstance(k, ast.Constant) and isinstance(k.value, str) for k in n.keys):
             accepted |= {k.value for k in n.keys}   # an alias table {documented name: (decorator, option)}
@@ -252,7 +253,7 @@ def run(ctx):
                 isinstance(e, ast.Tuple) and e.elts and all(isinstance(x, ast.Constant) and isinstance(x.value, str) for x in e.elts) for e in n.iter.elts):
             accepted |= {e.elts[0].value for e in n.iter.elts}   # an alias table written as pairs (documented name, option)
     mod_consts = {t.id: st.value for st in program.module("decorator.py").body if isinstance(st, ast.Assign) for t in st.targets if isinstance(t, ast.Name)}
-    for n in body_walk(wu):
+    for n in wu_nodes:
         it = n.iter if isinstance(n, ast.For) else None
         if isinstance(it, ast.Call) and isinstance(it.func, ast.Attribute) and it.func.attr == "items":
             it = it.func.value
